@@ -439,6 +439,151 @@ def check_identities(idx: Index, rep: Report) -> None:
         raise AnalysisError(f"only {n} identity patterns recognised in {CANON}")
 
 
+def check_fusion_values(idx: Index, rep: Report) -> None:
+    """Integer patterns that fold constants or fuse an operand's defining instruction into the matched one
+    ((a + 4) - a -> 4, x + c -> addi x c, c1 * c2 -> li): the value of the replacement, as a polynomial over the leaf
+    values and immediates, must equal the value of the matched instruction under the facts of the path that performs
+    the replacement."""
+    r = rep.rule("C22.R7", "add/sub/mul canonicalization patterns that fold constants or look through an operand's addi produce an instruction with the same value (polynomial identity over leaf values and immediates, per replacing path)", floor=8)
+    from ..astutil import norm_fact
+    from ..paths import enum_paths, expand_predicates
+    from ..polyform import _add, _mul, poly, show as pshow
+
+    ARITH = {"AddOp": "+", "SubOp": "-", "MulOp": "*"}
+    mi = idx.module(CANON)
+    n_eval = 0
+    for c in mi.classes.values():
+        m = c.method("match_and_rewrite")
+        if m is None:
+            continue
+        fn = m.node
+        ann = unparse(fn.args.args[1].annotation) if len(fn.args.args) > 1 and fn.args.args[1].annotation is not None else ""
+        opcls = ann.split(".")[-1]
+        if opcls not in ("AddOp", "SubOp", "MulOp", "AddiOp"):
+            continue
+        opn = fn.args.args[1].arg
+        try:
+            paths = expand_predicates(enum_paths(fn), {})
+        except AnalysisError:
+            continue
+        for pth in paths:
+            if not pth.feasible():
+                continue
+            reps_ = [(k, e_) for k, e_ in enumerate(pth.effects) if isinstance(e_, ast.Expr) and isinstance(e_.value, ast.Call) and call_attr(e_.value) == "replace" and unparse(e_.value.func).startswith("rewriter.") and len(e_.value.args) >= 2]
+            if not reps_:
+                continue
+            k, e_ = reps_[0]
+            nf = pth.nfacts()
+            # match-case consistency: `case int(), None` against the resolved subject tuple
+            consistent = True
+            for t_, pol in nf:
+                mm = re.fullmatch(r"\((.*)\) == '[\(\[](.*)[\)\]]'", t_)
+                if not mm or not pol:
+                    continue
+                try:
+                    subj = ast.parse("(" + mm.group(1) + ")", mode="eval").body
+                except SyntaxError:
+                    continue
+                pats = [x.strip() for x in mm.group(2).split(",")]
+                if isinstance(subj, ast.Tuple) and len(subj.elts) == len(pats):
+                    for se, pt in zip(subj.elts, pats):
+                        is_none = isinstance(se, ast.Constant) and se.value is None
+                        if (pt == "None" and not is_none) or (pt == "int()" and is_none):
+                            consistent = False
+            if not consistent:
+                continue
+            const_of = {}  # operand text -> atom of its constant
+            addi_of = set()
+            eqs = []  # (text a, text b) operand equalities
+            atom_vals = {}  # atom text -> int
+            for t_, pol in nf:
+                mm = re.fullmatch(r"get_constant_value\((.+)\) is None", t_)
+                if mm and not pol:
+                    const_of[mm.group(1)] = f"get_constant_value({mm.group(1)}).value.data"
+                mm = re.fullmatch(r"isinstance\((.+)\.op, riscv\.AddiOp\)", t_)
+                if mm and pol:
+                    addi_of.add(mm.group(1))
+                mm = re.fullmatch(r"(.+) == (-?\d+)", t_)
+                if mm and pol and mm.group(1).endswith(".value.data"):
+                    atom_vals[mm.group(1)] = int(mm.group(2))
+                mm = re.fullmatch(r"([\w.]+) == ([\w.]+)", t_)
+                if mm and pol and not mm.group(2).lstrip("-").isdigit():
+                    eqs.append((mm.group(1), mm.group(2)))
+            # union-find over operand texts
+            parent = {}
+
+            def find(x):
+                parent.setdefault(x, x)
+                while parent[x] != x:
+                    x = parent[x]
+                return x
+
+            for a_, b_ in eqs:
+                parent[find(a_)] = find(b_)
+
+            def atom(txt: str):
+                if txt in atom_vals:
+                    return {(): atom_vals[txt]} if atom_vals[txt] else {}
+                return {(txt,): 1}
+
+            def imm(e: ast.AST):
+                """polynomial of an integer-valued Python expression (immediates, constants)"""
+                p_ = poly(e)
+                out = {}
+                for mono, coef in p_.items():
+                    term = {(): coef}
+                    for a_ in mono:
+                        term = _mul(term, atom(a_))
+                    out = _add(out, term)
+                return out
+
+            def val(txt: str, depth: int = 3):
+                """polynomial of the register value denoted by operand expression `txt`"""
+                if txt in const_of:
+                    return atom(const_of[txt])
+                in_eq = any(txt in pr for pr in eqs)
+                if txt in addi_of and depth > 0 and not in_eq:
+                    return _add(val(f"{txt}.op.rs1", depth - 1), atom(f"{txt}.op.immediate.value.data"))
+                return {(f"V[{find(txt)}]",): 1}
+
+            def op_value(call: ast.Call):
+                cn = unparse(call.func).split(".")[-1]
+                a_ = [pth.res(x, k) for x in call.args]
+                if cn == "LiOp" and call.args:
+                    return imm(ast.parse(a_[0], mode="eval").body)
+                if cn == "MVOp" and call.args:
+                    return val(a_[0])
+                if cn == "AddiOp" and len(call.args) >= 2:
+                    return _add(val(a_[0]), imm(ast.parse(a_[1], mode="eval").body))
+                if cn in ARITH and len(call.args) >= 2:
+                    l_, r_ = val(a_[0]), val(a_[1])
+                    return _add(l_, r_) if cn == "AddOp" else _add(l_, r_, -1) if cn == "SubOp" else _mul(l_, r_)
+                return None
+
+            new = e_.value.args[1]
+            if isinstance(new, (ast.Tuple, ast.List)):
+                continue
+            if not isinstance(new, ast.Call):
+                continue
+            nv = op_value(new)
+            if nv is None:
+                continue
+            if opcls == "AddiOp":
+                ov = _add(val(f"{opn}.rs1"), atom(f"{opn}.immediate.value.data"))
+            else:
+                l_, r_ = val(f"{opn}.rs1"), val(f"{opn}.rs2")
+                ov = _add(l_, r_) if opcls == "AddOp" else _add(l_, r_, -1) if opcls == "SubOp" else _mul(l_, r_)
+            n_eval += 1
+            inst = f"{c.name}:{unparse(new)[:40]}"
+            loc = f"{CANON}:{e_.lineno}"
+            if pshow(ov) == pshow(nv):
+                r.ok(inst, f"{loc} {opcls}: {pshow(ov)}")
+            else:
+                r.fail(inst, Finding("C22.R7", c.fq, f"fusion-value:{opcls}", f"{c.name} replaces an {opcls} whose value is `{pshow(ov)}` (under the facts of this path) by `{unparse(new)[:70]}`, whose value is `{pshow(nv)}`: the canonicalized program computes a different result", loc))
+    if n_eval < 8:
+        raise AnalysisError(f"only {n_eval} constant-folding / fusion replacements evaluated in {CANON}")
+
+
 def check(idx: Index, rep: Report, tier: str) -> str:
     rep.run(check_tables, idx, rep)
     rep.run(check_cmp, idx, rep)
@@ -446,6 +591,7 @@ def check(idx: Index, rep: Report, tier: str) -> str:
     rep.run(check_constants, idx, rep)
     rep.run(check_prologue, idx, rep)
     rep.run(check_identities, idx, rep)
+    rep.run(check_fusion_values, idx, rep)
     return (
         "Reference-table agreement of the table-driven arith->riscv lowerings; exact abstract evaluation of the cmpi / cmpf "
         "instruction templates over the finite outcome spaces (signed x unsigned order; lt/eq/gt/unordered) against arith's "
